@@ -60,6 +60,27 @@ pub fn call(
             let _ = std::thread::scope(|s| s.spawn(|| out_of_domain_calls(kind)).join());
         }
     }
+    if st.evaluations % 20_011 == 0 || st.evaluations % 7_919 == 0 {
+        // the SAME input with a broken Params value (a missing key: panics, also in the original), caught, right
+        // before the valid call: a failed request followed by its corrected retry
+        let mut pb = p.clone();
+        match (st.evaluations / 7_919) % 4 {
+            0 => {
+                pb.angles.remove(&Prayer::Isha);
+            }
+            1 => {
+                pb.angles.remove(&Prayer::Fajr);
+            }
+            2 => {
+                pb.minutes.remove(&Prayer::Asr);
+            }
+            _ => {
+                pb.intervals.remove(&Prayer::Isha);
+            }
+        }
+        st.count("fault_injection.failed_request_then_retry");
+        let _ = catch_unwind(AssertUnwindSafe(|| prayer_times_dt(&pb, l, d, w)));
+    }
     let r = match catch_unwind(AssertUnwindSafe(|| prayer_times_dt(p, l, d, w))) {
         Ok(r) => Ok(r),
         Err(_) => Err(LAST_PANIC.with(|p| p.borrow().clone())),
@@ -305,6 +326,29 @@ pub fn out_of_domain_calls(kind: u64) {
             let dr = DateRange::from(NaiveDate::MAX.pred_opt().unwrap()..=NaiveDate::MAX);
             let _ = prayer_times_dt_rng(&Params::new(Method::Mwl), loc(60.0, 10.0, 0.0, 1.0), &dr);
         });
+        // non-finite numeric fields (Params' fields are public f64 maps)
+        for (which, v) in [(0, f64::NAN), (1, f64::NAN), (2, f64::INFINITY), (0, f64::NEG_INFINITY)] {
+            for pol in [ExtremeLatitudeMethod::NearestLatitudeAllPrayersAlways(lat(48.5)), ExtremeLatitudeMethod::NearestLatitudeFajrIshaInvalid(lat(-48.5)), ExtremeLatitudeMethod::NearestGoodDayFajrIshaInvalid, ExtremeLatitudeMethod::AngleBased] {
+                quiet(&mut || {
+                    let mut p = Params::new(Method::Mwl);
+                    p.extreme_latitude_method = pol;
+                    match which {
+                        0 => {
+                            p.angles.insert(Prayer::Fajr, v);
+                        }
+                        1 => {
+                            p.angles.insert(Prayer::Isha, v);
+                            p.intervals.insert(Prayer::Imsaak, v);
+                        }
+                        _ => {
+                            p.minutes.insert(Prayer::Dhuhr, v);
+                            p.intervals.insert(Prayer::Isha, v);
+                        }
+                    }
+                    let _ = prayer_times_dt(&p, loc(56.0, 10.0, 0.0, 1.0), ymd(2023, 6, 21), None);
+                });
+            }
+        }
         // which failing call comes LAST on this thread rotates (state left behind by an unwinding call is
         // consumed by the next call, so the order matters)
         static ROT: std::sync::atomic::AtomicU64 = std::sync::atomic::AtomicU64::new(0);
